@@ -477,7 +477,9 @@ func TestCodecExhaustive(t *testing.T) {
 			for bit := 0; bit < 8; bit++ {
 				work[pos] ^= 1 << uint(bit)
 				p, b := pos, bit
-				r.judge(rt, ref, work, viaBytes, field == "len", func() string { return fmt.Sprintf("flip bit %d of byte %d (%s of record %d)\n%s", b, p, field, rec, canon) })
+				r.judge(rt, ref, work, viaBytes, field == "len", func() string {
+					return fmt.Sprintf("flip bit %d of byte %d (%s of record %d)\n%s", b, p, field, rec, canon)
+				})
 				work[pos] ^= 1 << uint(bit)
 			}
 			switch {
@@ -843,7 +845,9 @@ func TestWALGroup(t *testing.T) {
 		found := 0
 		for _, h := range list {
 			for _, ignore := range []bool{false, true} {
-				searchWhat := func() string { return fmt.Sprintf("%s\nSearchForEndHeight(%d, ignoreCorruption=%v)", what(), h, ignore) }
+				searchWhat := func() string {
+					return fmt.Sprintf("%s\nSearchForEndHeight(%d, ignoreCorruption=%v)", what(), h, ignore)
+				}
 				var rd io.ReadCloser
 				var ok bool
 				var err error
@@ -1022,7 +1026,9 @@ func searchDamaged(t ev.TB, w *consensus.BaseWAL, ref *refLog, dstream []byte, e
 	foreign := expectFor(ref, dstream, false).foreign
 	for _, h := range []int64{hs[0], hs[len(hs)/2], hs[len(hs)-1]} {
 		for _, ignore := range []bool{false, true} {
-			sw := func() string { return fmt.Sprintf("%s\nSearchForEndHeight(%d, ignoreCorruption=%v) on the damaged group", what(), h, ignore) }
+			sw := func() string {
+				return fmt.Sprintf("%s\nSearchForEndHeight(%d, ignoreCorruption=%v) on the damaged group", what(), h, ignore)
+			}
 			var rd io.ReadCloser
 			var ok bool
 			var err error
